@@ -10,10 +10,17 @@ from ..report import Report
 
 def share_rules(repo: Repo, rep: Report, tier: str, module: str, mapping: dict[str, str], why: str) -> None:
     cache = repo.__dict__.setdefault("_shared_reports", {})
+    running = repo.__dict__.setdefault("_shared_running", set())
+    if module in running:
+        raise RuntimeError(f"circular rule sharing through csa.rules.{module}: import the rule function instead")
     if (module, tier) not in cache:
-        scratch = Report(module.upper(), tier)
-        importlib.import_module(f"csa.rules.{module}").run(repo, scratch, tier)
-        cache[(module, tier)] = scratch
+        running.add(module)
+        try:
+            scratch = Report(module.upper(), tier)
+            importlib.import_module(f"csa.rules.{module}").run(repo, scratch, tier)
+            cache[(module, tier)] = scratch
+        finally:
+            running.discard(module)
     src: Report = cache[(module, tier)]
     for old, new in mapping.items():
         rep.rule(new, src.rules_desc.get(old, old) + f" [{why}]")
